@@ -563,3 +563,100 @@ def gen_render_table():
            f'def modelCopied : Bool := {b(model_copied)}\n\n'
            'end PhotVerif.Gen.RenderTable\n')
     return 'RenderTable.lean', src, out
+
+
+def _ratlit(x):
+    from fractions import Fraction
+    f = Fraction(str(x))
+    return f'({f.numerator} : Rat) / {f.denominator}'
+
+
+def gen_bkg_consts():
+    """constants and comparison operators of the mesh statistics (SExtractorBackground, box exclusion, interpolator clip)"""
+    p1 = os.path.join(REPO, 'photutils/background/core.py')
+    p2 = os.path.join(REPO, 'photutils/background/background_2d.py')
+    p3 = os.path.join(REPO, 'photutils/background/interpolators.py')
+    s1, s2, s3 = open(p1).read(), open(p2).read(), open(p3).read()
+    t1, t2, t3 = ast.parse(s1), ast.parse(s2), ast.parse(s3)
+    calc = _cls_method(t1, 'SExtractorBackground', 'calc_background')
+    if calc is None:
+        raise Unsupported('SExtractorBackground.calc_background not found')
+    med_f = mean_f = ratio = None
+    ratio_op = zero_std_to_mean = None
+    for n in ast.walk(calc):
+        if isinstance(n, ast.Assign) and isinstance(n.targets[0], ast.Name) and n.targets[0].id == 'bkg' \
+                and isinstance(n.value, ast.BinOp) and isinstance(n.value.op, ast.Sub):
+            l, r = n.value.left, n.value.right
+            if isinstance(l, ast.BinOp) and isinstance(l.left, ast.Constant) and '_median' in ast.unparse(l.right):
+                med_f = l.left.value
+            if isinstance(r, ast.BinOp) and isinstance(r.left, ast.Constant) and '_mean' in ast.unparse(r.right):
+                mean_f = r.left.value
+        if isinstance(n, ast.Assign) and isinstance(n.targets[0], ast.Name) and n.targets[0].id == 'med_mask' \
+                and isinstance(n.value, ast.Compare) and isinstance(n.value.comparators[0], ast.Constant):
+            ratio = n.value.comparators[0].value
+            ratio_op = type(n.value.ops[0]).__name__
+            lhs = ast.unparse(n.value.left).replace(' ', '')
+            if lhs != '(np.abs(_mean-_median)/_std)' and lhs != 'np.abs(_mean-_median)/_std':
+                raise Unsupported(f'SExtractor med_mask expression changed: {lhs}')
+        if isinstance(n, ast.Assign) and isinstance(n.targets[0], ast.Name) and n.targets[0].id == 'mean_mask':
+            zero_std_to_mean = ast.unparse(n.value).replace(' ', '') == '_std==0'
+    if None in (med_f, mean_f, ratio, ratio_op, zero_std_to_mean):
+        raise Unsupported('SExtractorBackground.calc_background: expected statements not found')
+    # order of the two overrides: mean (std == 0) first, then median where ratio >= 0.3 and std != 0
+    src_calc = ast.unparse(calc)
+    mean_first = src_calc.index('bkg[mean_mask]') < src_calc.index('bkg[mask]')
+    med_guarded = 'np.logical_and(med_mask,np.logical_not(mean_mask))' in src_calc.replace(' ', '')
+    thr = _cls_method(t2, 'Background2D', '_good_npixels_threshold')
+    thr_expr = ast.unparse(next(n for n in ast.walk(thr) if isinstance(n, ast.Return)).value).replace(' ', '')
+    thr_ok = thr_expr == '(1-self.exclude_percentile/100.0)*self._box_npixels'
+    stats = _cls_method(t2, 'Background2D', '_compute_box_statistics')
+    cmp_ = next((n for n in ast.walk(stats) if isinstance(n, ast.Assign) and isinstance(n.targets[0], ast.Name)
+                 and n.targets[0].id == 'box_mask'), None)
+    if cmp_ is None:
+        raise Unsupported('box_mask comparison not found')
+    ex = ast.unparse(cmp_.value).replace(' ', '')
+    if ex == 'ngood<=self._good_npixels_threshold':
+        excl_op = 'le'
+    elif ex == 'np.logical_or(ngood<self._good_npixels_threshold,ngood==0)':
+        excl_op = 'lt-or-zero'
+    else:
+        raise Unsupported(f'box exclusion rule changed: {ex}')
+    excl_ok = True
+    ngood_ok = any(isinstance(n, ast.Assign) and isinstance(n.targets[0], ast.Name) and n.targets[0].id == 'ngood'
+                   and ast.unparse(n.value).replace(' ', '') == 'np.count_nonzero(~np.isnan(data),axis=axis)' for n in ast.walk(stats))
+    npix = any(isinstance(n, ast.Assign) and ast.unparse(n.targets[0]) == 'self._box_npixels'
+               and ast.unparse(n.value).replace(' ', '') == 'np.prod(self.box_size)'
+               for n in ast.walk(_cls_method(t2, 'Background2D', '_calculate_stats')))
+    zcall = _cls_method(t3, 'BkgZoomInterpolator', '__call__')
+    clip_ok = any(isinstance(n, ast.Call) and ast.unparse(n.func) == 'np.clip'
+                  and [ast.unparse(a) for a in n.args] == ['result', 'minval', 'maxval'] for n in ast.walk(zcall))
+    minmax_ok = all(any(isinstance(n, ast.Assign) and ast.unparse(n.targets[0]) == nm and ast.unparse(n.value) == f'np.{fn}(data)'
+                        for n in ast.walk(zcall)) for nm, fn in (('minval', 'min'), ('maxval', 'max')))
+    img = _cls_method(t2, 'Background2D', '_calculate_image')
+    fill_ok = any(isinstance(n, ast.Assign) and ast.unparse(n.targets[0]) == 'data[self.coverage_mask]'
+                  and ast.unparse(n.value) == 'self.fill_value' for n in ast.walk(img))
+    b = lambda v: 'true' if v else 'false'
+    src = s1 + s2 + s3
+    out = ('/- GENERATED by tools/extract_tables.py from photutils/background/{core,background_2d,interpolators}.py '
+           f'(sha256/16 {sha(src)}). DO NOT EDIT. -/\n'
+           'import PhotVerif.Model.Prelude\nnamespace PhotVerif.Gen.BkgConsts\n\n'
+           f'/-- `bkg = ({med_f} * _median) - ({mean_f} * _mean)` -/\n'
+           f'def sexMedianFactor : Rat := {_ratlit(med_f)}\n'
+           f'def sexMeanFactor : Rat := {_ratlit(mean_f)}\n'
+           f'/-- `med_mask = (np.abs(_mean - _median) / _std) {ratio_op} {ratio}` -/\n'
+           f'def sexRatio : Rat := {_ratlit(ratio)}\n'
+           f'def sexRatioOp : String := {lean_str(ratio_op)}\n'
+           f'def sexZeroStdGivesMean : Bool := {b(zero_std_to_mean)}\n'
+           f'def sexMeanOverrideFirst : Bool := {b(mean_first)}\n'
+           f'def sexMedianOverrideGuarded : Bool := {b(med_guarded)}\n'
+           f'/-- `_good_npixels_threshold = (1 - exclude_percentile / 100.0) * _box_npixels` with `_box_npixels = prod(box_size)` -/\n'
+           f'def thresholdIsFractionOfFullBox : Bool := {b(thr_ok and npix)}\n'
+           f'/-- box exclusion: "le" = `ngood <= threshold`; "lt-or-zero" = `(ngood < threshold) | (ngood == 0)`; `ngood` counts the clipped box -/\n'
+           f'def exclusionRule : String := {lean_str(excl_op)}\n'
+           f'def exclusionComparesNgood : Bool := {b(excl_ok and ngood_ok)}\n'
+           f'/-- BkgZoomInterpolator clips to [min(mesh), max(mesh)] -/\n'
+           f'def zoomClipsToMeshRange : Bool := {b(clip_ok and minmax_ok)}\n'
+           f'/-- `data[coverage_mask] = fill_value` -/\n'
+           f'def coverageGetsFill : Bool := {b(fill_ok)}\n\n'
+           'end PhotVerif.Gen.BkgConsts\n')
+    return 'BkgConsts.lean', src, out
